@@ -234,6 +234,14 @@ def add_children_rules(chk, pid):
         ut = [e for e in S.events if e.kind == "call" and e.name == "append" and e.recv is not None and e.recv[0] == "fld" and e.recv[2] == "_universe_tickers"]
         ok = bool(ut) and any((not p) and a[0] == "in" and mentions_field(a, "_universe_tickers", SELF) for a, p in ut[0].guard)
         chk.ob("C19.R1", ok, CORE, host, "tickers-registered-once", "every non-strategy child's name is added to the universe tickers once", where=fi.where)
+    if pid in ("C19", "C11"):
+        for e in S.events:
+            if e.kind == "store" and e.base[0] == "fld" and e.base[2] in ("_lazy_children", "children") and canon(e.base[1]) == canon(SELF):
+                v = sym.restrict(e.value, sym.sat(tuple(G(e)) + ((dc, True),)))
+                okc = sym.contains(v, lambda n: n[0] == "call" and n[1] == "deepcopy") or v[0] in ("new",)
+                chk.ob("C19.R1" if pid == "C19" else "C11.R3", okc, CORE, host, "registered-child-is-a-copy:%s" % e.base[2],
+                       "with dc=True every node registered under this parent - attached at once or kept for lazy creation - is a copy of the object passed in (templates can be shared between parents)",
+                       where=e.where, expected="deepcopy(c) under dc", found=short(v, 120))
     if pid == "C11":
         dcs = [w for w in S.events if w.kind == "write" and w.field in ("name", "parent") and w.obj != SELF]
         ok = True
@@ -369,6 +377,25 @@ def backtest_init_rules(chk, pid):
             if e.kind == "store":
                 okb = (e.base[0] == "fld" and e.base[2] == "additional_data") or (e.base[0] == "mcall" and e.base[2] == "copy")
                 chk.ob("C11.R1", okb, BACKTEST, "Backtest._process_data", "stores-hit-own-copy", "re-framed data is stored only into the backtest's own dict", where=e.where, found=short(e.base, 80))
+        # the copy is shallow: its entries are still the caller's objects and must not be handed to code that stores into its arguments
+        for e in P.events:
+            if e.kind != "call" or getattr(e, "inlined", False) or not e.callee:
+                continue
+            entry_args = [a for a in list(e.args or []) + list((e.kwargs or {}).values())
+                          if isinstance(a, tuple) and sym.contains(a, lambda n: n[0] in ("sub", "elem", "item") and sym.contains(n, lambda m: (m[0] == "fld" and len(m) == 4 and m[2] == "additional_data") or m == ("param", "additional_data")))]
+            if not entry_args:
+                continue
+            for cal in e.callee:
+                params = set(cal.params)
+                stores = False
+                for n in ast.walk(cal.node):
+                    tgts = n.targets if isinstance(n, ast.Assign) else [n.target] if isinstance(n, (ast.AugAssign, ast.AnnAssign)) else []
+                    for t in tgts:
+                        if isinstance(t, ast.Subscript) and isinstance(t.value, ast.Name) and t.value.id in params:
+                            stores = True
+                chk.ob("C11.R1", not stores, BACKTEST, "Backtest._process_data", "entry-handed-to-storing-helper:%s" % cal.name,
+                       "an entry of the additional data (the caller's own object: the dict copy is shallow) is handed to a function that stores into its argument", where=e.where,
+                       found="%s(%s)" % (cal.qual, ", ".join(short(a, 60) for a in entry_args)))
 
 
 SET_MAKERS = {"set", "frozenset"}
